@@ -55,6 +55,7 @@ class Result:
         self.unspecified = None  # sub-domain the properties leave open (value of the failing field not asserted)
         self.lengths = []        # (name, computed length in bits, form) for dynamic fields
         self.expect_exc = None   # exception class name the property names for this failure, if any
+        self.container_ends = []  # cursor after the entry list of every container on the inheritance path
 
     @property
     def values(self):
@@ -221,6 +222,7 @@ def decode(doc_or_model, packet: bytes, chooser=None, prefix_bits=None, rewind_n
         while True:
             res.path.append(current)
             parse_entries(m, current, bits, res)
+            res.container_ends.append(bits.pos)
             valid = []
             for child in m.children.get(current, []):
                 mt = m.conts[child].get("match")
